@@ -1,8 +1,8 @@
 """C13 — saving, cloning or reloading a quantized model preserves predictions (DESIGN.md §4 C13).
 
 Static tie (exhaustive): constructor signatures / get_config key sets / trainable behaviour of every
-class in `_add_supported_quantized_objects` (+ quantized_linear, quantized_hswish) and the table itself
-vs the Lean tables.
+class in `_add_supported_quantized_objects` (which since the fix round includes quantized_linear and
+quantized_hswish) and the table itself vs the Lean tables.
 Behavioural tie: for every layer of every generated model, the live layer is read into the model's
 `Layer` value (attributes, not get_config), then
   * real `get_config()` (canonical JSON)            vs  `layerGetConfig`
@@ -216,21 +216,25 @@ def qstr(q):
 def quantizer_strings(model):
   out = []
   for l in model.layers:
-    if hasattr(l, "get_quantizers"):
-      out.append([qstr(q) for q in l.get_quantizers()])
-    elif hasattr(l, "quantizer"):
-      out.append([qstr(l.quantizer)])
+    try:
+      if hasattr(l, "get_quantizers"):
+        out.append([qstr(q) for q in l.get_quantizers()])
+      elif hasattr(l, "quantizer"):
+        out.append([qstr(l.quantizer)])
+    except Exception as e:  # pylint: disable=broad-except
+      out.append(["<get_quantizers raises %s>" % type(e).__name__])
   return out
 
 
 # ----------------------------------------------------------------------------- routes
 
-def run_routes(model, x, scratch):
+def run_routes(model, x, scratch, branches=None):
   """the three routes on the real code -> {route: (status, detail, model2)}"""
   from qkeras.utils import clone_model, quantized_model_from_json, load_qmodel
   y0 = np.asarray(model.predict(x, verbose=0))
   q0 = quantizer_strings(model)
   res = {}
+  branches = branches or []
   for r in ROUTES:
     m2 = None
     try:
@@ -250,7 +254,12 @@ def run_routes(model, x, scratch):
       q = quantizer_strings(m2)
       if y.shape != y0.shape or y.tobytes() != y0.tobytes():
         d = float(np.max(np.abs(y.astype(np.float64) - y0.astype(np.float64)))) if y.shape == y0.shape else -1.0
-        res[r] = ("predict-differs", {"max_abs_diff": d}, m2)
+        detail = {"max_abs_diff": d}
+        if branches and y.shape == y0.shape:
+          # the model concatenates one output slice per branch: name the branches that differ
+          detail["branches_that_differ"] = [lab for lab, (a, b) in branches
+                                            if y[..., a:b].tobytes() != y0[..., a:b].tobytes()]
+        res[r] = ("predict-differs", detail, m2)
       elif q != q0:
         res[r] = ("quantizers-differ", {"before": q0, "after": q}, m2)
       else:
@@ -263,7 +272,10 @@ def run_routes(model, x, scratch):
 # ----------------------------------------------------------------------------- generation
 
 def serialisable_quantizers(rng, role):
-  """quantizer constructor expressions using only options that get_config emits"""
+  """quantizer constructor expressions over the options that get_config emits — since the fix round
+  every option but var_name / use_variables, so scale_axis, the po2 exponent bounds, is_quantized_clip
+  and the classes quantized_linear / quantized_hswish (in any slot, QActivation included) are drawn
+  here as ordinary members of the lattice"""
   import qkeras as Q
   b = int(rng.integers(2, 7))
   i = int(rng.integers(0, 2))
@@ -287,6 +299,13 @@ def serialisable_quantizers(rng, role):
       ("quantized_po2", lambda: Q.quantized_po2(b, quadratic_approximation=True, log2_rounding="floor")),
       ("quantized_relu_po2", lambda: Q.quantized_relu_po2(b, max_value=4.0, negative_slope=0.25)),
       ("quantized_ulaw", lambda: Q.quantized_ulaw(b, i, 1, u=100.0)),
+      # formerly dropped by get_config / not loadable (fix round)
+      ("quantized_bits+scale_axis", lambda: Q.quantized_bits(b, i, 1, alpha="auto", scale_axis=0)),
+      ("quantized_bits+po2_exponents", lambda: Q.quantized_bits(b, i, 1, alpha="auto_po2", min_po2_exponent=-1,
+                                                                max_po2_exponent=0)),
+      ("quantized_linear+scale_axis", lambda: Q.quantized_linear(b, i, alpha="auto", scale_axis=0)),
+      ("binary+scale_axis", lambda: Q.binary(alpha="auto", scale_axis=0)),
+      ("quantized_hswish", lambda: Q.quantized_hswish(b + 2, 2, relu_shift=2, relu_upper_bound=4)),
   ]
   act = [
       ("quantized_relu", lambda: Q.quantized_relu(b, i)),
@@ -302,6 +321,11 @@ def serialisable_quantizers(rng, role):
       ("quantized_ulaw", lambda: Q.quantized_ulaw(b, 1, 1)),
       ("binary", lambda: Q.binary(alpha=1.0)),
       ("ternary", lambda: Q.ternary(alpha=1.0)),
+      # formerly dropped by get_config / not loadable / not in the custom-object table (fix round)
+      ("quantized_relu+unquantized_clip", lambda: Q.quantized_relu(b, 1, is_quantized_clip=False,
+                                                                   relu_upper_bound=1.3)),
+      ("quantized_hswish", lambda: Q.quantized_hswish(b + 2, 2)),
+      ("quantized_linear", lambda: Q.quantized_linear(b, i)),
       ("str:quantized_relu", lambda: "quantized_relu(%d,%d)" % (b, i)),
       ("str:quantized_tanh", lambda: "quantized_tanh(%d)" % b),
       ("str:quantized_bits", lambda: "quantized_bits(%d,%d,1,alpha=1)" % (b, i)),
@@ -461,14 +485,17 @@ def random_opts(kind, rng, rep=0):
   return o
 
 
-# the recorded defects of the unchanged tree, reproduced on every run (stream "defects")
-def defect_cases():
+# the defects recorded on the tree this check was first built on, all repaired in the fix round
+# (known/C13.json "fixed"): one fixed model per former defect, replayed on every run (stream
+# "regression").  No known-finding entry covers them any more, so a failure of any route on any of
+# them is a VIOLATION.
+def regression_cases():
   import qkeras as Q
   qa = lambda mk: (lambda: mk())
   cases = []
   def add(kind, label, qclass, option, wq=None, aq=None, opts=None):
     cases.append(dict(kind=kind, label=label, qclass=qclass, option=option, wq=wq, aq=aq, opts=opts or {}))
-  # F4: options that get_config drops and that change inference
+  # F4: options that get_config used to drop and that change inference
   add("QDense", "quantized_bits(scale_axis=0)", "quantized_bits", "scale_axis",
       wq=qa(lambda: Q.quantized_bits(4, 0, 1, alpha="auto", scale_axis=0)))
   add("QDense", "quantized_bits(min/max_po2_exponent)", "quantized_bits", "min_po2_exponent",
@@ -481,27 +508,90 @@ def defect_cases():
       aq=qa(lambda: Q.quantized_relu(4, 1, is_quantized_clip=False, relu_upper_bound=1.3)))
   add("QDense", "quantized_relu(is_quantized_clip=False) as activation", "quantized_relu", "is_quantized_clip",
       aq=qa(lambda: Q.quantized_relu(4, 1, is_quantized_clip=False, relu_upper_bound=1.3)))
-  # quantized_hswish: from_config(get_config()) raises TypeError
+  # quantized_hswish: from_config(get_config()) used to raise TypeError
   add("QDense", "quantized_hswish kernel", "quantized_hswish", "*", wq=qa(lambda: Q.quantized_hswish(6, 2)))
   add("QDense", "quantized_hswish activation", "quantized_hswish", "*", aq=qa(lambda: Q.quantized_hswish(6, 2)))
-  # classes missing from the custom-object table: QActivation resolves its dict through the table
+  # classes formerly missing from the custom-object table: QActivation resolves its dict through the table
   add("QActivation", "QActivation(quantized_linear)", "quantized_linear", "table",
       aq=qa(lambda: Q.quantized_linear(4, 0)))
   add("QActivation", "QActivation(quantized_hswish)", "quantized_hswish", "table",
       aq=qa(lambda: Q.quantized_hswish(6, 2)))
-  # QAdaptiveActivation.get_config drops relu_upper_bound
+  # QAdaptiveActivation.get_config used to drop relu_upper_bound
   add("QAdaptiveActivation", "QAdaptiveActivation(relu_upper_bound=0.5)", "QAdaptiveActivation",
       "relu_upper_bound", opts=dict(act="quantized_relu", bits=4, relu_upper_bound=0.5))
   return cases
 
 
+def activation_objects():
+  """quantizer OBJECTS with non-default options for QActivation: every option here changes the
+  transfer function, and most are not (faithfully) encoded by the quantizer's __str__, so a
+  QActivation config that does not carry the object's own get_config() cannot reproduce them"""
+  import qkeras as Q
+  return [
+      ("quantized_relu(4,1,negative_slope=0.25)", lambda: Q.quantized_relu(4, 1, negative_slope=0.25)),
+      ("quantized_relu(4,1,use_sigmoid=1)", lambda: Q.quantized_relu(4, 1, use_sigmoid=1)),
+      ("quantized_relu(4,1,relu_upper_bound=1.3,is_quantized_clip=False)",
+       lambda: Q.quantized_relu(4, 1, relu_upper_bound=1.3, is_quantized_clip=False)),
+      ("quantized_relu(4,1,qnoise_factor=0.5)", lambda: Q.quantized_relu(4, 1, qnoise_factor=0.5)),
+      ("quantized_tanh(4,symmetric=True)", lambda: Q.quantized_tanh(4, symmetric=True)),
+      ("quantized_tanh(4,use_real_tanh=True)", lambda: Q.quantized_tanh(4, use_real_tanh=True)),
+      ("quantized_sigmoid(4,use_real_sigmoid=True)", lambda: Q.quantized_sigmoid(4, use_real_sigmoid=True)),
+      ("quantized_sigmoid(4,symmetric=True)", lambda: Q.quantized_sigmoid(4, symmetric=True)),
+      ("quantized_po2(4,max_value=1.5)", lambda: Q.quantized_po2(4, max_value=1.5)),
+      ("quantized_po2(4,quadratic_approximation=True,log2_rounding='floor')",
+       lambda: Q.quantized_po2(4, quadratic_approximation=True, log2_rounding="floor")),
+      ("quantized_relu_po2(4,max_value=1.5,negative_slope=0.25)",
+       lambda: Q.quantized_relu_po2(4, max_value=1.5, negative_slope=0.25)),
+      ("quantized_bits(4,1,1,alpha=1.0,qnoise_factor=0.5)",
+       lambda: Q.quantized_bits(4, 1, 1, alpha=1.0, qnoise_factor=0.5)),
+      ("quantized_bits(4,0,keep_negative=False,alpha=1.0)",
+       lambda: Q.quantized_bits(4, 0, keep_negative=False, alpha=1.0)),
+      ("quantized_bits(4,0,1,alpha='auto',scale_axis=0)",
+       lambda: Q.quantized_bits(4, 0, 1, alpha="auto", scale_axis=0)),
+      ("quantized_ulaw(4,1,1,u=100.0)", lambda: Q.quantized_ulaw(4, 1, 1, u=100.0)),
+      ("binary(use_01=True,alpha=1.0)", lambda: Q.binary(use_01=True, alpha=1.0)),
+      ("ternary(alpha=1.0,threshold=0.4)", lambda: Q.ternary(alpha=1.0, threshold=0.4)),
+      ("quantized_linear(4,1,symmetric=0,keep_negative=False)",
+       lambda: Q.quantized_linear(4, 1, symmetric=0, keep_negative=False)),
+      # quantized_hswish has a model of its own in the regression stream (its __str__ raises on the
+      # tree this was written on, which would turn the whole multi-branch model into one `raises`)
+  ]
+
+
+def explicit_none_cases(specs, tier):
+  """layers built with a quantizer / activation argument EXPLICITLY None although its constructor
+  default is not None (QBatchNormalization's four quantizers, the activations of the recurrent
+  layers): a config that leaves None-valued entries out makes them come back as the default.
+  Derived from the model's tables: (kind, label, keyword arguments)."""
+  out = []
+  for cls_name in sorted(specs):
+    nn = []
+    for p in specs[cls_name]["params"]:
+      d = p["default"]
+      if p["kind"]["k"] in ("quant", "act") and next(iter(d.values())) is not None:
+        nn.append(p["name"])
+    if not nn or cls_name.endswith("Cell") and tier == "quick":
+      continue
+    out.append((cls_name, "%s(%s)" % (cls_name, ", ".join("%s=None" % n for n in nn)), {n: None for n in nn}))
+    if cls_name == "QBatchNormalization":
+      out.append((cls_name, "QBatchNormalization(beta_quantizer=None, mean_quantizer=None)",
+                  {"beta_quantizer": None, "mean_quantizer": None}))
+      out.append((cls_name, "QBatchNormalization(gamma_quantizer=None, variance_quantizer=None, inverse_quantizer=quantized_bits(6,2,1,alpha=1))",
+                  {"gamma_quantizer": None, "variance_quantizer": None, "inverse_quantizer": "OBJ"}))
+      if tier != "quick":
+        for n in nn:
+          out.append((cls_name, "QBatchNormalization(%s=None)" % n, {n: None}))
+  return out
+
+
 def ema_case(run, rng, scratch):
-  """QAdaptiveActivation after a few training steps: the EMA min/max are model weights and ARE carried
-  over by all three routes, but `call` quantizes with the integer bits assigned by the PREVIOUS call
-  (the build-time value right after a rebuild), so the first prediction of the rebuilt model differs.
-  Recorded defect; `mirrored` = the recorded signature is observed exactly (first predict differs,
-  EMA variables equal).  The SECOND prediction must be bit-identical (clause `second-predict`): that
-  is where a dropped QAdaptiveActivation option shows once the EMA state is non-trivial."""
+  """QAdaptiveActivation after a few training steps: the EMA min/max are model weights and are carried
+  over by all three routes; the integer bits of the quantizer are derived state.  `call` used to
+  quantize with the integer bits assigned by the PREVIOUS call (the build-time value right after a
+  rebuild), so the first prediction of a rebuilt model differed (repaired in the fix round: `call`
+  now refreshes the integer bits from the moving averages first).  Both the FIRST and the SECOND
+  prediction of the rebuilt model must be bit-identical to the original's; the second one is where a
+  dropped QAdaptiveActivation option shows once the EMA state is non-trivial."""
   import tensorflow as tf
   import qkeras as Q
   from qkeras.utils import clone_model, quantized_model_from_json, load_qmodel
@@ -551,7 +641,7 @@ def ema_case(run, rng, scratch):
           run.violate("route", dict(key, failure="second-predict-differs"), detail, mirrored=False)
         elif z1.tobytes() != y.tobytes():
           run.count("ema_first_predict_differs")
-          run.violate("route", dict(key, failure="predict-differs"), detail, mirrored=True)
+          run.violate("route", dict(key, failure="predict-differs"), detail, mirrored=False)
         else:
           run.count("ema_first_predict_same")
       except Exception as e:  # pylint: disable=broad-except
@@ -628,7 +718,10 @@ def run(run: core.Run, tier: str):
   run.extra["rule"] = (
       "single-layer and small DAG models over every runnable layer class of the custom-object table "
       "(QBidirectional and RNN(Q*Cell) wrappers included) x quantizers drawn from the serialisable option "
-      "lattice x layer options x random float32 weights/inputs; plus one fixed model per recorded defect. "
+      "lattice (every option but var_name/use_variables) x layer options x random float32 weights/inputs; plus "
+      "one fixed model per defect repaired in the fix round (regression stream), one model with a QActivation "
+      "branch per quantizer OBJECT carrying non-default options, layers whose non-None-default quantizer / "
+      "activation arguments are explicitly None, and trained-EMA models. "
       "Per model: 3 routes on the real code (clause oracle), and per library layer: get_config vs "
       "layerGetConfig and reloaded attributes vs layerFromConfig. non-trivial = distinct (layer kind, "
       "quantizer classes, options) combination")
@@ -655,26 +748,44 @@ def run(run: core.Run, tier: str):
   n_dag = {"quick": 4, "thorough": 16}.get(tier, 4)
   pending = []   # (meta, driver line) — the driver is called once at the end
 
-  def add_model(stream, label, key_base, model, x, defect=None):
-    res = run_routes(model, x, scratch)
+  def real_raises(what, key_base, label, path, cls, e):
+    """the real code raised while the harness read / serialised a layer: a clause violation for
+    this model (never an uncaught harness exception)"""
+    run.count("real_code_raises_" + what)
+    run.violate("serialise", dict(key_base, layer_class=cls, failure=what + "-raises"),
+                {"model": label, "layer": path, "class": cls, "exception": type(e).__name__,
+                 "message": str(e)[:300].replace("\n", " "),
+                 "replay": "build the model described by `model`; layer.%s()" % what}, mirrored=False)
+
+  def add_model(stream, label, key_base, model, x, defect=None, branches=None):
+    res = run_routes(model, x, scratch, branches)
     layers = []
     for path, layer in qkeras_layers_of(model):
       cls = layer.__class__.__name__
       if cls not in specs:
         continue
-      lj, _ = layer_json(layer, specs[cls], qparams)
-      real_cfg = json_canon(layer.get_config())
+      try:
+        lj, _ = layer_json(layer, specs[cls], qparams)
+        real_cfg = json_canon(layer.get_config())
+      except Exception as e:  # pylint: disable=broad-except
+        real_raises("get_config", key_base, label, path, cls, e)
+        continue
       reloaded = {}
       for r in ROUTES:
         m2 = res[r][2]
         if m2 is None:
           reloaded[r] = None
           continue
-        l2 = dict(qkeras_layers_of(m2)).get(path)
-        if l2 is None:
-          reloaded[r] = "missing"
+        try:
+          l2 = dict(qkeras_layers_of(m2)).get(path)
+          if l2 is None:
+            reloaded[r] = "missing"
+            continue
+          lj2, _ = layer_json(l2, specs[cls], qparams)
+        except Exception as e:  # pylint: disable=broad-except
+          real_raises("get_config", dict(key_base, route=r), label + " (rebuilt)", path, cls, e)
+          reloaded[r] = "unreadable"
           continue
-        lj2, _ = layer_json(l2, specs[cls], qparams)
         a1, a2 = dict(map(tuple, [(k, json.dumps(v, sort_keys=True)) for k, v in lj["args"]])), \
                  dict(map(tuple, [(k, json.dumps(v, sort_keys=True)) for k, v in lj2["args"]]))
         reloaded[r] = sorted(k for k in read_of[cls] if a1[k] != a2[k])
@@ -685,15 +796,19 @@ def run(run: core.Run, tier: str):
       if l.__class__.__name__ == "QBidirectional":
         # Keras stores the wrapped layer itself (`.layer`); forward_layer is a copy that Keras
         # re-created from its config, backward_layer is renamed after its config was taken
-        f, _ = layer_json(l.layer, specs[l.layer.__class__.__name__], qparams)
-        cfg = l.get_config()
-        b = None
-        if "backward_layer" in cfg:
-          b, _ = layer_json(l.backward_layer, specs[l.backward_layer.__class__.__name__], qparams)
-          stored = cfg["backward_layer"]["config"]["name"]
-          b["kwargs"] = [[k, (stored if k == "name" else v)] for k, v in b["kwargs"]]
-        kw = [[k, enc_pv(json_canon(v))] for k, v in cfg.items() if k not in ("layer", "backward_layer")]
-        wrappers.append(dict(name=l.name, real_cfg=json_canon(cfg)))
+        try:
+          f, _ = layer_json(l.layer, specs[l.layer.__class__.__name__], qparams)
+          cfg = l.get_config()
+          b = None
+          if "backward_layer" in cfg:
+            b, _ = layer_json(l.backward_layer, specs[l.backward_layer.__class__.__name__], qparams)
+            stored = cfg["backward_layer"]["config"]["name"]
+            b["kwargs"] = [[k, (stored if k == "name" else v)] for k, v in b["kwargs"]]
+          kw = [[k, enc_pv(json_canon(v))] for k, v in cfg.items() if k not in ("layer", "backward_layer")]
+          wrappers.append(dict(name=l.name, real_cfg=json_canon(cfg)))
+        except Exception as e:  # pylint: disable=broad-except
+          real_raises("get_config", key_base, label, l.name, "QBidirectional", e)
+          continue
         pending.append((len(models), -len(wrappers), {"op": "bidir", "kw": kw, "fwd": f, "bwd": b}))
     models.append(dict(stream=stream, label=label, key=key_base, res={r: res[r][:2] for r in ROUTES},
                        layers=layers, wrappers=wrappers, defect=defect))
@@ -775,8 +890,8 @@ def run(run: core.Run, tier: str):
       run.count("kind_dag")
       add_model("dag", label, {"layer": "dag", "qclass": "/".join(picks), "option": "serialisable"}, model, x)
 
-    # ---------------- stream 3: the recorded defects
-    for c in defect_cases():
+    # ---------------- stream 3: regression models of the repaired defects
+    for c in regression_cases():
       tf.keras.backend.clear_session()
       try:
         shp, layer = build_layer(c["kind"], rng, c["wq"], c["aq"], c["opts"])
@@ -789,11 +904,63 @@ def run(run: core.Run, tier: str):
         run.count("build_failed")
         run.extra.setdefault("build_failed", []).append({"label": c["label"], "error": "%s: %s" % (type(e).__name__, str(e)[:160])})
         continue
-      run.case(("defect", c["label"]), sample={"stream": "defects", "model": c["label"]} if c["option"] == "scale_axis" else None)
-      run.count("kind_defect_" + c["kind"])
-      add_model("defects", c["label"], {"layer": c["kind"], "qclass": c["qclass"], "option": c["option"]}, model, x,
+      run.case(("regression", c["label"]), sample={"stream": "regression", "model": c["label"]} if c["option"] == "scale_axis" else None)
+      run.count("kind_regression_" + c["kind"])
+      add_model("regression", c["label"], {"layer": c["kind"], "qclass": c["qclass"], "option": c["option"]}, model, x,
                 defect=c["label"])
-    # ---------------- stream 4: a QAdaptiveActivation whose EMA state was trained
+    # ---------------- stream 4: QActivation built from quantizer OBJECTS with non-default options,
+    #                  one branch per object, outputs concatenated (one model, 3 routes)
+    tf.keras.backend.clear_session()
+    inp = L.Input((5,))
+    outs, branches, skipped, pos = [], [], [], 0
+    xz = (rng.normal(0, 1, (4, 5)) * 2).astype(np.float32)
+    xz[0] = [-3.0, -0.6, 0.2, 1.4, 5.0]
+    for i, (lab, mk) in enumerate(activation_objects()):
+      try:
+        o = Q.QActivation(mk(), name="z%02d" % i)(inp)
+        tf.keras.Model(inp, o).predict(xz, verbose=0)
+      except Exception as e:  # pylint: disable=broad-except
+        skipped.append({"object": lab, "error": "%s: %s" % (type(e).__name__, str(e)[:120])})
+        continue
+      outs.append(o)
+      branches.append((lab, (pos, pos + 5)))
+      pos += 5
+    if skipped:
+      run.count("build_failed")
+      run.extra.setdefault("build_failed", []).extend(skipped)
+    if len(outs) > 1:
+      model = tf.keras.Model(inp, L.Concatenate(name="zoo")(outs))
+      label = "QActivation(<object>) x %d branches: %s" % (len(outs), "; ".join(b[0] for b in branches))
+      run.case(("qactivation-objects", label), sample={"stream": "qactivation-objects", "branches": [b[0] for b in branches]})
+      run.count("kind_qactivation_objects")
+      add_model("qactivation-objects", label, {"layer": "QActivation", "qclass": "objects", "option": "non-default"},
+                model, xz, branches=branches)
+
+    # ---------------- stream 5: arguments explicitly None whose constructor default is not None
+    for cls_name, label, kw in explicit_none_cases(specs, tier):
+      tf.keras.backend.clear_session()
+      try:
+        kw = {k: (Q.quantized_bits(6, 2, 1, alpha=1.0) if v == "OBJ" else v) for k, v in kw.items()}
+        args = dict(T.SAMPLE_ARGS[cls_name])
+        args.update(kw)
+        layer = getattr(Q, cls_name)(**args)
+        if cls_name.endswith("Cell"):
+          layer = L.RNN(layer)
+        shp = (5,) if cls_name == "QBatchNormalization" else (3, 4)
+        inp = L.Input(shp)
+        model = tf.keras.Model(inp, layer(inp))
+        randomize_weights(model, rng)
+        x = (rng.normal(0, 1, (3,) + shp) * 2).astype(np.float32)
+        model.predict(x, verbose=0)
+      except Exception as e:  # pylint: disable=broad-except
+        run.count("build_failed")
+        run.extra.setdefault("build_failed", []).append({"label": label, "error": "%s: %s" % (type(e).__name__, str(e)[:160])})
+        continue
+      run.case(("explicit-none", label), sample={"stream": "explicit-none", "model": label} if cls_name == "QBatchNormalization" and len(kw) == 4 else None)
+      run.count("kind_explicit_none_" + cls_name)
+      add_model("explicit-none", label, {"layer": cls_name, "qclass": "None", "option": "explicit-none"}, model, x)
+
+    # ---------------- stream 6: a QAdaptiveActivation whose EMA state was trained
     ema_case(run, rng, scratch)
   finally:
     shutil.rmtree(scratch, ignore_errors=True)
@@ -839,6 +1006,8 @@ def run(run: core.Run, tier: str):
                          m["res"][r], {"model_says": "ok"})
         elif real == "missing":
           run.disagree("reload-structure", {"model": m["label"], "layer": lay["path"], "route": r}, "layer missing", "")
+        elif real == "unreadable":
+          pass                     # the rebuilt layer's get_config raised: already a `serialise` violation
         else:
           if not rel["ok"] or route_model != "ok":
             run.disagree("reload-verdict", {"model": m["label"], "layer": lay["path"], "route": r},
@@ -874,10 +1043,10 @@ def run(run: core.Run, tier: str):
       run.violate("route", key, dict(detail, model=m["label"], route=r, status=status,
                                      replay="build the model described by `model`, then qkeras.utils "
                                             "%s route without custom_objects" % r), mirrored=mirrored)
-    if m["stream"] == "defects":
+    if m["stream"] == "regression":
       bad = [r for r in ROUTES if m["res"][r][0] != "ok"]
-      run.count("defect_reproduced" if bad else "defect_not_reproduced")
-      if not bad:
-        run.extra.setdefault("defects_not_reproduced", []).append(m["label"])
+      run.count("regression_fails" if bad else "regression_holds")
+      if bad:
+        run.extra.setdefault("repaired_defects_back", []).append(m["label"])
   run.extra["models"] = len(models)
   run.extra["layers_tied"] = sum(len(m["layers"]) for m in models)
